@@ -142,7 +142,7 @@ struct stack_harness : sim::Harness
                  "ll_l2cap_sdu_buffer.hpp", "ll_data_pdu_buffer.hpp", "ring_buffer.hpp", "l2cap.hpp", "server.hpp (small GATT server)" };
     }
     std::vector< std::string > stub_components() const override { return { "radio (harness/sim_radio.hpp: scheduled_radio contract incl. scan request handling)", "central / scanners / initiators (reference, from the Core specification)", "application", "air", "clocks of both devices" }; }
-    std::uint64_t default_runs( const std::string&, bool thorough ) const override { return thorough ? 400000 : 12000; }
+    std::uint64_t default_runs( const std::string&, bool thorough ) const override { return thorough ? 6000000 : 150000; }
     std::vector< std::string > op_names() const override { return { "run", "scan_request", "connect_request", "air_fault", "central_control", "central_update", "central_l2cap", "app", "central_terminate" }; }
 
     sim::Plan generate( std::uint64_t seed, const std::string& property, bool thorough ) const override
